@@ -45,6 +45,7 @@ def do_replay(prop, path):
         rec = json.load(fh)
     OR = loader.load_orig(prop.MODULES)
     prop.setup_orig(OR)
+    loader.snapshot_state(OR, prop.MODULES)
     bad, cobs = core.replay_record(prop, OR, rec['shape'], core.unjson(rec['input']))
     print("input:", json.dumps(prop.sample(rec['shape'], core.unjson(rec['input'])), default=str)[:2000])
     print("observed:", json.dumps(core.norm(cobs), default=str)[:2000])
@@ -98,6 +99,7 @@ def do_check(prop, args, seed):
         second = core.crosshair_kernels(prop.CROSSHAIR_KERNELS)
     OR = loader.load_orig(prop.MODULES)
     prop.setup_orig(OR)
+    loader.snapshot_state(OR, prop.MODULES)      # every replay starts from the state of a fresh process
     known, fixed = core.load_known(prop.ID)
 
     violations, known_hits, nonrepro = [], {}, []
